@@ -211,7 +211,13 @@ def qtok(t):
 def near_tie(x: Fraction):
     """exact position within 1e-9 of a rounding tie (k + 1/2): the float pipeline may land on either side"""
     d = abs((x - Fraction(1, 2)) - L.rhe(x - Fraction(1, 2)))
-    return 0 < d < Fraction(1, 10**9)
+    if 0 < d < Fraction(1, 10**9):
+        GAPS[0] += 1
+        return True
+    return False
+
+
+GAPS = [0]
 
 
 def near_tie_scaling(rf, rt, t, step_mode=0):
